@@ -41,7 +41,7 @@ func init() {
 		NotDecided:  "agreement, single winner per version and progress under all message schedules (history properties); unsynchronised reads in Commit().",
 		Assumptions: commonAssumptions})
 	prop(&PropInfo{ID: "C12", Level: "other",
-		Explanation: "Decides shape-level necessary conditions of the CRDT semilattice laws: (PURE-UNUSED) no update of a persistent map/list or clock computed in Merge/Write is discarded (a discarded Set in Merge loses the peer's state, so merge is not an upper bound); further MERGE-* rules are listed under 'rules'.",
+		Explanation: "Decides shape-level necessary conditions of the CRDT semilattice laws: (PURE-UNUSED) no update of a persistent map/list or clock computed in Merge/Write is discarded (a discarded Set in Merge loses the peer's state, so merge is not an upper bound); further MERGE-* rules are listed under 'rules'; (OPERAND-TRAVERSED) binary operations look at every component of every operand; (WRITE-UNCOND) set writes are recorded unconditionally; (GOB-FRESH) decode loops use a fresh destination.",
 		NotDecided:  "commutativity / associativity / idempotence of Merge on all reachable states and the declared read semantics (algebra over values).",
 		Assumptions: commonAssumptions})
 	prop(&PropInfo{ID: "C03", Level: "other",
@@ -52,7 +52,7 @@ func init() {
 
 func init() {
 	prop(&PropInfo{ID: "C01", Level: "other",
-		Explanation: "Decides the structural transaction protocol that makes critical sections atomic, for every ArchetypeResource implementation of the workspace (enumerated by types.Implements) and for the driver in distsys: who may call lifecycle methods (RES-OWNER), that every field written during a section is written by Abort and snapshot fields are maintained (RES-RESTORE), that wrappers and map resources forward and track dirty children (RES-FORWARD), that observable sinks are reachable only from Commit (RES-PUBLISH), the ordering obligations of Run/commit/abort and Read/Write on their control-flow graphs (CS-ORDER, CS-DIRTY), that the abort/done sentinels are never wrapped (ERR-SENTINEL) and that critical-section code never re-binds a live resource cell (RES-NOREBIND).",
+		Explanation: "Decides the structural transaction protocol that makes critical sections atomic, for every ArchetypeResource implementation of the workspace (enumerated by types.Implements) and for the driver in distsys: who may call lifecycle methods (RES-OWNER), that every field written during a section is written by Abort and snapshot fields are maintained (RES-RESTORE), that wrappers and map resources forward and track dirty children (RES-FORWARD), that observable sinks are reachable only from Commit (RES-PUBLISH), the ordering obligations of Run/commit/abort and Read/Write on their control-flow graphs (CS-ORDER, CS-DIRTY), that the abort/done sentinels are never wrapped (ERR-SENTINEL) and that critical-section code never re-binds a live resource cell (RES-NOREBIND); that the error of every section-time operation stops the operation (ERR-PROPAGATE) and a failed I/O step never falls through to the success path inside a resource (IO-ERR); that forwarding resources and the driver keep and drain every channel a resource returns, never overwriting a refused pre-commit (RES-JOIN, CS-ORDER join clauses).",
 		NotDecided:  "that each Abort restores the right value (only that it writes the field); socket-level delivery; timeouts; interaction of two contexts; the equality 'state after a failed attempt = state before' as a run-time fact.",
 		Assumptions: commonAssumptions})
 }
